@@ -472,6 +472,18 @@ func CheckWrites(rc *RunCtx, rec *BuildRec, ws *WriteState, label string, cancel
 	viol := func(class, key, f string, a ...interface{}) *Violation {
 		return &Violation{Class: "write-" + class, Key: key, Detail: fmt.Sprintf("%s build of step %d: ", label, rec.Step) + fmt.Sprintf(f, a...)}
 	}
+	// (files are looked up under their real path: the output directory may be reached
+	// through a symbolic link)
+	onDisk := func(m map[string]string, p string) (string, bool) {
+		if v, ok := m[p]; ok {
+			return v, true
+		}
+		if rec.Snap != nil {
+			v, ok := m[rec.Snap.RealPath(p)]
+			return v, ok
+		}
+		return "", false
+	}
 	outputs := map[string]string{}
 	for _, f := range r.OutputFiles {
 		if prev, dup := outputs[path.Clean(f.Path)]; dup && prev != string(f.Contents) {
@@ -548,12 +560,18 @@ func CheckWrites(rc *RunCtx, rec *BuildRec, ws *WriteState, label string, cancel
 			if inputs[op.Path] && !rec.Opts.AllowOverwrite {
 				return viol("clobbered-input", "", "the build wrote %s, which it also loaded as an input, without AllowOverwrite", op.Path)
 			}
+			if rec.Snap != nil && !rec.Opts.AllowOverwrite {
+				// the same file under another name (a symbolic link on the way)
+				if real := rec.Snap.RealPath(op.Path); real != op.Path && inputs[real] {
+					return viol("clobbered-input", "via-symlink", "the build wrote %s, which is the input %s reached through a symbolic link, without AllowOverwrite", op.Path, real)
+				}
+			}
 			if prev, ok := sums[op.Path]; ok && prev != op.Sum {
 				return viol("two-contents", "", "the build wrote two different contents to %s", op.Path)
 			}
 			sums[op.Path] = op.Sum
 			if isOut && op.Err == "" && op.Fault == "" {
-				if got := rec.After[op.Path]; got != want && sums[op.Path] == op.Sum && !laterWrite(rec.Log, op) {
+				if got, _ := onDisk(rec.After, op.Path); got != want && sums[op.Path] == op.Sum && !laterWrite(rec.Log, op) {
 					return viol("wrong-bytes", "", "%s on disk (%d bytes) differs from the reported output (%d bytes)", op.Path, len(got), len(want))
 				}
 			}
@@ -583,7 +601,7 @@ func CheckWrites(rc *RunCtx, rec *BuildRec, ws *WriteState, label string, cancel
 	if rec.Opts.Write && buildOK(r) && !rec.Faulted {
 		// every reported output is on disk with the reported bytes
 		for p, want := range outputs {
-			got, ok := rec.After[p]
+			got, ok := onDisk(rec.After, p)
 			if !ok {
 				return viol("missing-on-disk", "", "reported output %s is not on disk after a successful build", p)
 			}
@@ -602,6 +620,9 @@ func CheckWrites(rc *RunCtx, rec *BuildRec, ws *WriteState, label string, cancel
 	for _, op := range rec.Log {
 		if op.Kind == "writefile" || op.Kind == "remove" {
 			touched[op.Path] = true
+			if rec.Snap != nil {
+				touched[rec.Snap.RealPath(op.Path)] = true
+			}
 		}
 	}
 	for p, b := range rec.Before {
